@@ -18,7 +18,7 @@ from ..recipes import lpgen as L
 from ..recipes import ref as R
 
 LEVEL = "exploration"
-BUDGET_S = {"quick": 75, "thorough": 1500}
+BUDGET_S = {"quick": 420, "thorough": 1500}
 N_RANDOM = {"quick": 1200, "thorough": 30000}
 TOL = 1e-12
 
